@@ -11,6 +11,11 @@ from __future__ import annotations
 import numpy as np
 from hypothesis import strategies as st
 
+def fl(lo, hi):
+    """Finite floats without subnormals (XLA flushes denormals to zero, NumPy does not)."""
+    return st.floats(lo, hi, allow_nan=False, allow_infinity=False, allow_subnormal=False)
+
+
 DEFAULTS = dict(radius=1.0, length=10.0, axial_resistivity=5000.0, capacitance=1.0, v=-70.0)
 RANGES = dict(
     radius=(0.1, 20.0), length=(0.5, 500.0), axial_resistivity=(10.0, 2e4), capacitance=(0.1, 5.0)
@@ -25,7 +30,7 @@ RANGES_DYN = dict(
 
 
 def log_uniform(lo, hi):
-    return st.floats(np.log10(lo), np.log10(hi)).map(lambda e: float(10.0**e))
+    return fl(np.log10(lo), np.log10(hi)).map(lambda e: float(10.0**e))
 
 
 @st.composite
@@ -68,7 +73,7 @@ def comp_values(draw, cells, key, mode=None, ranges=None):
     N = n_compartments(cells)
     default = DEFAULTS[key]
     if key == "v":
-        one = st.floats(-100.0, 40.0)
+        one = fl(-100.0, 40.0)
     else:
         one = log_uniform(*(ranges or RANGES)[key])
     mode = mode or draw(st.sampled_from(["default", "uniform", "branch", "comp", "comp"]))
